@@ -17,6 +17,19 @@ def run(tier, seed):
                    acvpoff=seed % 10, nhunt=6000 if tier == "quick" else 80000, nhuntfull=2 if tier == "quick" else 12, out=chk.workdir)
         traces[s] = os.path.join(chk.workdir, "sign_%d.ndjson" % s)
     n, mism = common.validate_f(chk, traces, nproc=12, key_of=lambda m: "sign:" + m["ev"])
+    # the same external calls on accepted private keys the library did not produce, in the RELEASE build (code under
+    # cfg(not(debug_assertions)) exists only there) and, one set per run, in a build for the host CPU
+    relb = vlib.build_harness("release")
+    rdir = os.path.join(chk.workdir, "rel")
+    for s in (44, 65, 87):
+        vlib.drive(relb, "sign", sets=s, seed=seed + 3, nfull=0, nfactor=0, out=rdir)
+    nr, _ = common.validate_f(chk, {s: os.path.join(rdir, "sign_%d.ndjson" % s) for s in (44, 65, 87)}, nproc=9, key_of=lambda m: "sign-release:" + m["ev"])
+    nat = vlib.build_harness("release", native=True)
+    ndir = os.path.join(chk.workdir, "native")
+    nset = (44, 65, 87)[(seed + 1) % 3]
+    vlib.drive(nat, "sign", sets=nset, seed=seed + 5, nfull=2, nfactor=0, nhunt=1500, nhuntfull=1, out=ndir)
+    nn, _ = common.validate_f(chk, {nset: os.path.join(ndir, "sign_%d.ndjson" % nset)}, nproc=6, key_of=lambda m: "sign-native:" + m["ev"])
+    n += nr + nn
     common.acvp_anchor(chk, 0, 1 if tier == "quick" else 4, 0, seed)
     # the whole specification (hashing, samplers, codecs, rejection loop) on ring degree 8: staged = literal forms, Verify(Sign) = TRUE
     common.mc_leg(chk, "MC_SmallN", tier=tier, coverage=False, must_print=["REJECT1 taken", "REJECT2 taken"])
